@@ -5,6 +5,7 @@ Encoders (C12): the parity-encoded operator is unitarily equivalent to the field
 `mat (parityEncode op) = V · op.mat · Vᴴ` with the signed prefix-parity permutation `V`. Helper lemmas only.
 -/
 set_option linter.unusedVariables false
+set_option linter.unusedSectionVars false
 open Complex Matrix
 namespace Qib.Encode
 open Qib.Pauli
@@ -80,7 +81,7 @@ theorem conj_refTermMat (φ : α → ℂ) (L : ℕ) (t : Term α) :
   congr 1
   apply List.map_congr_left
   intro e _
-  simp [Matrix.mul_smul, Matrix.smul_mul]
+  simp
 
 theorem encodeTerm_parity_conj {φ : α → ℂ} (hφ : ScalarHom φ) (L : ℕ) (op op' : PauliOp α) (t : Term α)
     (h : encodeTerm .parity L op t = .ok op') (hwf : t.WF) :
